@@ -196,9 +196,56 @@ func runC11(ctx *Ctx) {
 		}
 		return c
 	}, func(c *Case) error { return checkC11(ctx, c, 1) })
-	runC11Any(ctx, types, n/4+1)
+	runC11Any(ctx, types, n/16+1)
+	runC11NilBytes(ctx, types)
 	runC11Deep(ctx)
 	runC11Big(ctx)
+}
+
+// runC11NilBytes: an EMPTY bytes value in every position where it is a value of
+// its own (active oneof member, list element, map value), held as a nil slice -
+// what `&T_Member{}` or `[][]byte{nil}` written by hand gives - and read by eight
+// goroutines at once: a reader that "normalises" nil to empty writes.
+func runC11NilBytes(ctx *Ctx, types []*model.Type) {
+	n := 0
+	for _, t := range types {
+		fds := t.Desc.Fields()
+		var b []byte
+		for i := 0; i < fds.Len(); i++ {
+			fd := fds.Get(i)
+			switch {
+			case fd.IsMap() && fd.MapValue().Kind() == protoreflect.BytesKind && fd.MapKey().Kind() == protoreflect.StringKind:
+				entry := protowire.AppendString(protowire.AppendTag(nil, 1, protowire.BytesType), "k")
+				entry = protowire.AppendBytes(protowire.AppendTag(entry, 2, protowire.BytesType), nil)
+				b = protowire.AppendBytes(protowire.AppendTag(b, fd.Number(), protowire.BytesType), entry)
+			case fd.Kind() == protoreflect.BytesKind && !fd.IsMap() && (fd.IsList() || fd.ContainingOneof() != nil):
+				b = protowire.AppendBytes(protowire.AppendTag(b, fd.Number(), protowire.BytesType), nil)
+			}
+		}
+		if b == nil {
+			continue
+		}
+		if n++; ctx.Quick() && n > 12 {
+			break
+		}
+		c := &Case{Sub: "nilbytes", Type: string(t.Name), Bytes: hexs(b), Args: map[string]string{"procs": "16"}}
+		for g := 0; g < 8; g++ {
+			for _, op := range [][]string{{"hasget", "equal", "marshal"}, {"equal", "range", "hasget"}, {"size", "hasget", "json"}, {"range", "clone", "equal"}}[g%4] {
+				c.Ops = append(c.Ops, Op{H: g, Op: op})
+			}
+		}
+		ctx.Eval(1)
+		if err := safely(func() error { return checkC11(ctx, c, 1) }); err != nil {
+			if strings.HasPrefix(err.Error(), "HARNESS") {
+				fmt.Printf("HARNESS-ERROR %v\n", err)
+			} else {
+				ctx.Violation(c, err.Error())
+			}
+			ctx.T.Fail()
+		} else {
+			ctx.Label("nilbytes arm: empty bytes values held as nil slices")
+		}
+	}
 }
 
 // runC11Any: the shared message holds a google.protobuf.Any that packs a
@@ -227,7 +274,7 @@ func runC11Any(ctx *Ctx, types []*model.Type, n int) {
 	if len(sites) == 0 {
 		return
 	}
-	all := model.Types()
+	all := model.TypesNoBulk()
 	ctx.CheckRapid("any-readers", n, func(rt *rapid.T) *Case {
 		st := sites[rapid.IntRange(0, len(sites)-1).Draw(rt, "site")]
 		pt := all[rapid.IntRange(0, len(all)-1).Draw(rt, "payloadtype")]
@@ -325,7 +372,7 @@ func runC11Deep(ctx *Ctx) {
 		maxTypes = 1 << 30
 	}
 	i, used := 0, 0
-	for _, t := range model.Types() {
+	for _, t := range model.TypesNoBulk() {
 		if ctx.OnlyFresh && !t.Fresh {
 			continue
 		}
@@ -409,6 +456,13 @@ func checkC11(ctx *Ctx, c *Case, rounds int) error {
 		// unpopulated lists / maps / bytes held as empty non-nil containers (what
 		// Mutable or clearing the last entry leaves behind): the same value
 		model.SetEmptyContainers(shared)
+	}
+	if c.Sub == "nilbytes" || digest(c.Bytes, "flipbytes")%4 == 0 {
+		// every empty bytes value (oneof member, list element, map value) held the
+		// other way round, nil <-> []byte{}: what a hand-built message looks like
+		if model.FlipEmptyBytes(shared) > 0 {
+			ctx.Label("shared message with empty bytes values flipped nil <-> empty")
+		}
 	}
 	c11SharedMsg, c11SharedViews = shared, nil
 	for _, op := range c.Ops {
